@@ -84,6 +84,8 @@ pub fn gen_op(r: &mut Rng, kind: OpKind) -> Op {
         Remove => vec![slot(r), r.below(9), r.below(2), r.below(2)],
         Unflatten => vec![slot(r), r.below(4)],
         NestGen => vec![r.below(NESTS.len() as u32)],
+        NestClone => vec![slot(r)],
+        NestIntoIter => vec![slot(r), r.below(6), r.below(2)],
         ArrToVec | BxToVec => vec![slot(r), r.below(2)],
         VecMake => vec![len_idx(r), r.below(4), r.below(2), r.below(4)],
         VecToArr | VecToBx => vec![slot(r), r.below(4), len_idx(r)],
@@ -152,6 +154,8 @@ pub const MOVES: &[(OpKind, u32)] = &[
     (Flatten, 2),
     (Unflatten, 3),
     (NestGen, 2),
+    (NestClone, 1),
+    (NestIntoIter, 2),
     (ArrToVec, 3),
     (ArrBox, 3),
     (Unbox, 2),
@@ -246,7 +250,7 @@ pub fn callback_seams(kind: OpKind) -> &'static [Seam] {
         Generate | BoxedGenerate | NestGen | BuilderRun | ConsumerRun | ItFold | ItRfold | Fold => &[Seam::Closure],
         Map | Zip => &[Seam::Closure, Seam::Closure, Seam::Clone],
         DefaultArr | DefaultBoxed => &[Seam::Default],
-        CloneArr | ItClone | BxClone | BoxArrMacro | ItCloneFrom | CloneFromArr => &[Seam::Clone],
+        CloneArr | ItClone | BxClone | BoxArrMacro | ItCloneFrom | CloneFromArr | NestClone => &[Seam::Clone],
         Collect => &[Seam::SrcNext],
         DeScripted | DeReal | SerReal => &[Seam::DeElem],
         _ => &[],
@@ -288,7 +292,7 @@ impl Abs {
             Zip => if args[3] % 10 == 9 { self.bxs > 0 } else { self.arrs > 0 },
             Concat => self.arrs > 1,
             ItNext | ItNextBack | ItNth | ItNthBack | ItLen | ItWrite | ItClone | ItFold | ItRfold | ItCount | ItLast | ItDebug | ItCollect => self.its > 0,
-            Flatten => self.nests > 0,
+            Flatten | NestClone | NestIntoIter => self.nests > 0,
             Unbox | BxToVec | BxClone | BxIntoIter => self.bxs > 0,
             VecToArr | VecToBx => self.vecs > 0,
             VitNext => self.vits > 0,
@@ -312,7 +316,8 @@ impl Abs {
             Concat => dec(&mut self.arrs),
             Flatten => { dec(&mut self.nests); inc(&mut self.arrs, 3) }
             Unflatten => { dec(&mut self.arrs); inc(&mut self.nests, 2) }
-            NestGen => inc(&mut self.nests, 2),
+            NestGen | NestClone => inc(&mut self.nests, 2),
+            NestIntoIter => { dec(&mut self.nests); inc(&mut self.arrs, 3) }
             ArrToVec => { dec(&mut self.arrs); inc(&mut self.vecs, 3) }
             ArrBox => { dec(&mut self.arrs); inc(&mut self.bxs, 3) }
             Unbox => { dec(&mut self.bxs); inc(&mut self.arrs, 3) }
@@ -346,9 +351,21 @@ fn next_op(r: &mut Rng, abs: &mut Abs, table: &[(OpKind, u32)]) -> Op {
     op
 }
 
+/// swarm style: each run draws from its own random subset of the alphabet (creation and caller
+/// drops always stay), and one run in ten is four times as long
+fn swarm_table(r: &mut Rng, table: &[(OpKind, u32)]) -> Vec<(OpKind, u32)> {
+    if r.chance(1, 3) {
+        return table.to_vec();
+    }
+    let keep_p = r.range(3, 8);
+    table.iter().copied().filter(|(k, _)| matches!(k, Generate | DropObj | IntoIter | ArrBox | VecMake | NestGen) || r.below(10) < keep_p).collect()
+}
+
 fn moves_trace(r: &mut Rng, n_ops: u32, table: &[(OpKind, u32)]) -> Vec<Op> {
     let mut abs = Abs::default();
-    (0..n_ops).map(|_| next_op(r, &mut abs, table)).collect()
+    let table = swarm_table(r, table);
+    let n_ops = if r.chance(1, 10) { n_ops * 4 } else { n_ops };
+    (0..n_ops).map(|_| next_op(r, &mut abs, &table)).collect()
 }
 
 /// make the array / box an operation will act on right before it, so that the operand length
